@@ -216,6 +216,8 @@ class World:
             # include an already completed file again (possibly from another directory)
             child = r.choice(self.done)
             ref = mkref(r, frm, child)
+            if self.nosib and posixpath.basename(child) in SIBLING_NAMES:
+                ref = None       # (inside a function body: resolved against the caller, a common name could denote the caller itself)
             if ref:
                 self.classes.add('same-file-again')
                 return {'url': ref}
@@ -401,7 +403,13 @@ def run_shard(ctx, spec):
         rnd = random.Random(seed)
         w, root, inline, missing_mode = gen_world(rnd, size)
         as_built = rnd.random() < 0.4
-        b = check_world(w, root, inline, missing_mode, as_built)
+        try:
+            b = check_world(w, root, inline, missing_mode, as_built)
+        except RecursionError:
+            # the reference itself did not terminate: the world has an unguarded include cycle, which the generator is meant to exclude (ASSUMPTIONS);
+            # counted, never a verdict
+            ctx.discard('world-with-unguarded-cycle')
+            return
         if b is None:
             ctx.discard('recursion')
             return
